@@ -4,7 +4,7 @@ from . import core, solcore
 
 
 def oracle(c, o):
-    if not solcore.solved(o):
+    if not solcore.solved(o) or c.get("Rep", 0) >= 3:       # (the many repeats of one heavily loaded bar are for C02: three of them are compared here)
         return []
     ex = solcore.exact_of(c, o)
     if ex is None:
